@@ -5,7 +5,9 @@ location table is a bijection between occupied cells and core assemblies, names 
 found, nothing else is found), `inv_init`, `inv_swap`, `inv_cascade`, `inv_removeAssembly`, `inv_coreAdd`,
 `inv_dischargeSwap`, `inv_step`, `inv_run` (induction over arbitrary histories), `purged_not_found`,
 `transfer_contents` (contents unchanged / stationary blocks exchanged in place), `swap_keeps_inventory`,
-`removeAssembly_spec`.
+`removeAssembly_spec`, `conservation_run` (multiset ledger), `swap_contents`, `dischargeSwap_contents`,
+block lookups: `blocks_found_run_partial` (stationary blocks, tracking on, no purge) and `blocks_run_with_purge`
+(any history incl. purges, stationary-block feature not in play: found AND nothing else found).
 -/
 import ArmiVerif.Model.Shuffle
 import Mathlib.Data.List.Nodup
@@ -125,7 +127,7 @@ theorem removeAssembly_spec (s s' : St) (i : Nat) (d : Bool) (h : removeAssembly
       (∀ x, x ≠ c → s'.byLoc x = s.byLoc x) ∧
       ((d && s.track) = true → s'.sfp = s.sfp ++ [a] ∧ s'.byName = s.byName ∧ s'.bbn = s.bbn) ∧
       ((d && s.track) = false → s'.sfp = s.sfp ∧ s'.byName i = false ∧ (∀ b ∈ a.blocks, s'.bbn b.bid = false) ∧
-        (∀ j, j ≠ i → s'.byName j = s.byName j)) := by
+        (∀ j, j ≠ i → s'.byName j = s.byName j) ∧ s'.bbn = setKeys s.bbn (a.blocks.map (·.bid)) false) := by
   unfold removeAssembly at h
   split at h
   · exact absurd h (by simp)
@@ -143,7 +145,7 @@ theorem removeAssembly_spec (s s' : St) (i : Nat) (d : Bool) (h : removeAssembly
       · rename_i hdt
         simp only [Option.some.injEq] at h; subst h
         refine ⟨rfl, by simp [popLoc], fun x hx => by simp [popLoc, hx], fun hc => absurd hc hdt, fun _ => ?_⟩
-        refine ⟨rfl, by simp [setKey], ?_, fun j hj => by simp [setKey, hj]⟩
+        refine ⟨rfl, by simp [setKey], ?_, fun j hj => by simp [setKey, hj], rfl⟩
         intro b hb
         simp only [setKeys]
         rw [if_pos (List.mem_map.2 ⟨b, hb, rfl⟩)]
@@ -1581,5 +1583,423 @@ example : BlkFound (run exSt [.swap 1 2, .cascade [1, 2, 3], .dsfp 9 1, .remove 
         rcases hop with rfl | rfl | rfl | rfl <;> simp [BPre])
     (blkFound_init _ _ _)
 
+
+
+/-! ### blocks with purging (stationary-block feature disabled) -/
+
+/-- `a` is one of the assemblies the reactor holds (core child or pool child) -/
+def Holds (s : St) (a : Asm) : Prop := (∃ c, (a, c) ∈ s.core) ∨ a ∈ s.sfp
+
+abbrev NoStat (a : Asm) : Prop := ∀ b ∈ a.blocks, b.stat = false
+
+/-- block-level invariant for histories that may purge: every block present is found, nothing else is found
+(blocks of purged assemblies in particular), different assemblies share no block -/
+structure BInv (s : St) : Prop where
+  nostat : ∀ a, Holds s a → NoStat a
+  found : ∀ a, Holds s a → ∀ b ∈ a.blocks, s.bbn b.bid = true
+  only : ∀ x, s.bbn x = true → ∃ a, Holds s a ∧ ∃ b ∈ a.blocks, b.bid = x
+  disj : ∀ a a', Holds s a → Holds s a' → a.id ≠ a'.id → ∀ b ∈ a.blocks, ∀ b' ∈ a'.blocks, b.bid ≠ b'.bid
+
+private theorem binv_of_holds_iff (s t : St) (hm : ∀ a, Holds t a ↔ Holds s a) (hb : t.bbn = s.bbn)
+    (h : BInv s) : BInv t := by
+  refine ⟨fun a ha => h.nostat a ((hm a).1 ha), fun a ha b hb' => by rw [hb]; exact h.found a ((hm a).1 ha) b hb',
+    ?_, fun a a' ha ha' => h.disj a a' ((hm a).1 ha) ((hm a').1 ha')⟩
+  intro x hx
+  rw [hb] at hx
+  obtain ⟨a, ha, hbx⟩ := h.only x hx
+  exact ⟨a, (hm a).2 ha, hbx⟩
+
+private theorem asm_ext (a b : Asm) (h1 : a.id = b.id) (h2 : a.blocks = b.blocks) : a = b := by
+  cases a; cases b; simp_all
+
+private theorem holds_unique (s : St) (hI : Inv s) (a b : Asm) (ha : Holds s a) (hb : Holds s b)
+    (hid : a.id = b.id) : a = b := by
+  have hnd := hI.nodup
+  have hndc : (s.core.map (·.1.id)).Nodup := (List.nodup_append.1 hnd).1
+  have hnds : (s.sfp.map (·.id)).Nodup := (List.nodup_append.1 hnd).2.1
+  have hdisj : ∀ x ∈ coreIds s, ∀ y ∈ sfpIds s, x ≠ y := (List.nodup_append.1 hnd).2.2
+  rcases ha with ⟨c, ha⟩ | ha <;> rcases hb with ⟨c', hb⟩ | hb
+  · exact (Prod.mk.inj (ids_inj hndc ha hb hid)).1
+  · exact absurd hid (hdisj _ (List.mem_map.2 ⟨_, ha, rfl⟩) _ (List.mem_map.2 ⟨_, hb, rfl⟩))
+  · exact absurd hid.symm (hdisj _ (List.mem_map.2 ⟨_, hb, rfl⟩) _ (List.mem_map.2 ⟨_, ha, rfl⟩))
+  · exact List.inj_on_of_nodup_map hnds ha hb hid
+
+private theorem swap_holds (s s' : St) (i1 i2 : Nat) (hne : i1 ≠ i2) (h : swap s i1 i2 = some s') (hI : Inv s)
+    (hns : ∀ a, Holds s a → NoStat a) : (∀ a, Holds s' a ↔ Holds s a) ∧ s'.bbn = s.bbn := by
+  have hndc : (s.core.map (·.1.id)).Nodup := (List.nodup_append.1 hI.nodup).1
+  obtain ⟨a1, c1, a2, c2, a1', a2', m1, m2, k1, k2, ht, hcore, _, hsfp, _, hbbn, _⟩ := swap_shape s s' i1 i2 hne h hndc
+  obtain ⟨e1, e2, _, _⟩ := transfer_ids _ _ _ _ ht
+  obtain ⟨b1, b2⟩ := transfer_no_stat _ _ _ _ ht (hns a1 (Or.inl ⟨c1, m1⟩))
+  have x1 : a1' = a1 := asm_ext _ _ e1 b1
+  have x2 : a2' = a2 := asm_ext _ _ e2 b2
+  subst x1; subst x2
+  refine ⟨fun a => ?_, hbbn⟩
+  unfold Holds
+  rw [hsfp, hcore]
+  constructor
+  · rintro (⟨c, hc⟩ | hs)
+    · left
+      obtain ⟨p, hp, hpe⟩ := List.mem_map.1 hc
+      by_cases hp1 : p.1.id = i1
+      · rw [if_pos hp1] at hpe
+        obtain ⟨rfl, rfl⟩ := Prod.mk.inj hpe
+        exact ⟨c1, m1⟩
+      · by_cases hp2 : p.1.id = i2
+        · rw [if_neg hp1, if_pos hp2] at hpe
+          obtain ⟨rfl, rfl⟩ := Prod.mk.inj hpe
+          exact ⟨c2, m2⟩
+        · rw [if_neg hp1, if_neg hp2] at hpe
+          exact ⟨c, hpe ▸ hp⟩
+    · exact Or.inr hs
+  · rintro (⟨c, hc⟩ | hs)
+    · left
+      by_cases hp1 : a.id = i1
+      · have : (a, c) = (a1', c1) := ids_inj hndc hc m1 (by simp [hp1, k1])
+        refine ⟨c2, List.mem_map.2 ⟨(a, c), hc, ?_⟩⟩
+        show (if a.id = i1 then (a1', c2) else if a.id = i2 then (a2', c1) else (a, c)) = (a, c2)
+        rw [if_pos hp1, (Prod.mk.inj this).1]
+      · by_cases hp2 : a.id = i2
+        · have : (a, c) = (a2', c2) := ids_inj hndc hc m2 (by simp [hp2, k2])
+          refine ⟨c1, List.mem_map.2 ⟨(a, c), hc, ?_⟩⟩
+          show (if a.id = i1 then (a1', c2) else if a.id = i2 then (a2', c1) else (a, c)) = (a, c1)
+          rw [if_neg hp1, if_pos hp2, (Prod.mk.inj this).1]
+        · refine ⟨c, List.mem_map.2 ⟨(a, c), hc, ?_⟩⟩
+          show (if a.id = i1 then (a1', c2) else if a.id = i2 then (a2', c1) else (a, c)) = (a, c)
+          rw [if_neg hp1, if_neg hp2]
+    · exact Or.inr hs
+
+private theorem binv_swap (s s' : St) (i1 i2 : Nat) (hne : i1 ≠ i2) (h : swap s i1 i2 = some s') (hI : Inv s)
+    (hB : BInv s) : BInv s' := by
+  obtain ⟨hm, hb⟩ := swap_holds s s' i1 i2 hne h hI hB.nostat
+  exact binv_of_holds_iff s s' hm hb hB
+
+private theorem binv_cascadeLoop (a0 : Nat) (l : List Nat) (s : St) (hne : ∀ ak ∈ l, a0 ≠ ak) (hI : Inv s)
+    (hB : BInv s) : BInv (cascadeLoop a0 s l).1 := by
+  induction l generalizing s with
+  | nil => exact hB
+  | cons ak rest ih =>
+    unfold cascadeLoop
+    split
+    · exact hB
+    · rename_i s' hs
+      have hn := hne ak List.mem_cons_self
+      exact ih s' (fun x hx => hne x (List.mem_cons_of_mem _ hx)) (inv_swap s s' a0 ak hn hs hI)
+        (binv_swap s s' a0 ak hn hs hI hB)
+
+private theorem binv_removeAssembly (s s' : St) (i : Nat) (d : Bool) (h : removeAssembly s i d = some s') (hI : Inv s)
+    (hB : BInv s) : BInv s' := by
+  have hndc : (s.core.map (·.1.id)).Nodup := (List.nodup_append.1 hI.nodup).1
+  have hdisj : ∀ x ∈ coreIds s, ∀ y ∈ sfpIds s, x ≠ y := (List.nodup_append.1 hI.nodup).2.2
+  obtain ⟨a0, c0, hm0, hid0, hcore, _, _, htr, hpu⟩ := removeAssembly_spec s s' i d h
+  have h0 : Holds s a0 := Or.inl ⟨c0, hm0⟩
+  cases hdt : (d && s.track)
+  · -- purge
+    obtain ⟨hsfp, _, _, _, hbbn⟩ := hpu hdt
+    have hmem : ∀ a, Holds s' a ↔ Holds s a ∧ a.id ≠ i := by
+      intro a
+      unfold Holds
+      rw [hcore, hsfp]
+      constructor
+      · rintro (⟨c, hc⟩ | hs)
+        · have := mem_filter_ne.1 hc; exact ⟨Or.inl ⟨c, this.1⟩, this.2⟩
+        · exact ⟨Or.inr hs, fun e => hdisj i (List.mem_map.2 ⟨_, hm0, hid0⟩) a.id (List.mem_map.2 ⟨a, hs, rfl⟩) e.symm⟩
+      · rintro ⟨⟨c, hc⟩ | hs, hne⟩
+        · exact Or.inl ⟨c, mem_filter_ne.2 ⟨hc, hne⟩⟩
+        · exact Or.inr hs
+    refine ⟨fun a ha => hB.nostat a ((hmem a).1 ha).1, ?_, ?_, fun a a' ha ha' => hB.disj a a' ((hmem a).1 ha).1 ((hmem a').1 ha').1⟩
+    · intro a ha b hb
+      obtain ⟨has, hai⟩ := (hmem a).1 ha
+      rw [hbbn]
+      simp only [setKeys]
+      rw [if_neg]
+      · exact hB.found a has b hb
+      · intro hin
+        obtain ⟨b0, hb0, hbe⟩ := List.mem_map.1 hin
+        exact hB.disj a a0 has h0 (by rw [hid0]; exact hai) b hb b0 hb0 hbe.symm
+    · intro x hx
+      rw [hbbn] at hx
+      simp only [setKeys] at hx
+      split at hx
+      · exact absurd hx (by simp)
+      · rename_i hnin
+        obtain ⟨a, ha, b, hb, hbx⟩ := hB.only x hx
+        refine ⟨a, (hmem a).2 ⟨ha, ?_⟩, b, hb, hbx⟩
+        intro hai
+        have : a = a0 := holds_unique s hI a a0 ha h0 (by rw [hai, hid0])
+        subst this
+        exact hnin (List.mem_map.2 ⟨b, hb, hbx⟩)
+  · -- discharge into the pool
+    obtain ⟨hsfp, _, hbbn⟩ := htr hdt
+    apply binv_of_holds_iff s s' _ hbbn hB
+    intro a
+    unfold Holds
+    rw [hcore, hsfp]
+    constructor
+    · rintro (⟨c, hc⟩ | hs)
+      · exact Or.inl ⟨c, (mem_filter_ne.1 hc).1⟩
+      · rcases List.mem_append.1 hs with hs | hs
+        · exact Or.inr hs
+        · simp only [List.mem_singleton] at hs; subst hs; exact h0
+    · rintro (⟨c, hc⟩ | hs)
+      · by_cases hai : a.id = i
+        · have : (a, c) = (a0, c0) := ids_inj hndc hc hm0 (by rw [hai, hid0])
+          exact Or.inr (List.mem_append_right _ (by simp [(Prod.mk.inj this).1]))
+        · exact Or.inl ⟨c, mem_filter_ne.2 ⟨hc, hai⟩⟩
+      · exact Or.inr (List.mem_append_left _ hs)
+
+private theorem removeAssembly_holds_sub (s s' : St) (i : Nat) (d : Bool) (h : removeAssembly s i d = some s')
+    (x : Asm) (hx : Holds s' x) : Holds s x := by
+  obtain ⟨a0, c0, hm0, _, hcore, _, _, htr, hpu⟩ := removeAssembly_spec s s' i d h
+  unfold Holds at hx ⊢
+  rw [hcore] at hx
+  rcases hx with ⟨c, hc⟩ | hs
+  · exact Or.inl ⟨c, (mem_filter_ne.1 hc).1⟩
+  · cases hdt : (d && s.track)
+    · rw [(hpu hdt).1] at hs; exact Or.inr hs
+    · rw [(htr hdt).1] at hs
+      rcases List.mem_append.1 hs with hs | hs
+      · exact Or.inr hs
+      · simp only [List.mem_singleton] at hs; subst hs; exact Or.inl ⟨c0, hm0⟩
+
+private theorem disj_symm {a x : Asm} (h : ∀ b ∈ a.blocks, ∀ b' ∈ x.blocks, b.bid ≠ b'.bid) :
+    ∀ b ∈ x.blocks, ∀ b' ∈ a.blocks, b.bid ≠ b'.bid := fun b hb b' hb' => (h b' hb' b hb).symm
+
+/-- `sfp.remove(a)` (if pooled) + `core.add(a, cell)`: block-level invariant -/
+private theorem binv_putIn (s1 s' : St) (a : Asm) (c : Cell) (h : putIn s1 a.id a c = some s') (hB : BInv s1)
+    (hns : NoStat a) (hU : ∀ x, Holds s1 x → x.id = a.id → x = a)
+    (hD : ∀ x, Holds s1 x → x.id ≠ a.id → ∀ b ∈ a.blocks, ∀ b' ∈ x.blocks, b.bid ≠ b'.bid) : BInv s' := by
+  unfold putIn coreAdd at h
+  dsimp only at h
+  split at h
+  · simp at h
+  · rename_i hany
+    split at h
+    · simp at h
+    · simp only [Bool.false_eq_true, if_false, Option.some.injEq] at h
+      have hcoreid : ∀ p ∈ s1.core, p.1.id ≠ a.id := by
+        intro p hp e
+        apply hany
+        rw [List.any_eq_true]; exact ⟨p, hp, by simpa using e⟩
+      have hmem : ∀ x, Holds s' x ↔ (Holds s1 x ∧ x.id ≠ a.id) ∨ x = a := by
+        intro x
+        rw [← h]
+        unfold Holds
+        constructor
+        · rintro (⟨c', hc⟩ | hs)
+          · rcases List.mem_append.1 hc with hc | hc
+            · exact Or.inl ⟨Or.inl ⟨c', hc⟩, hcoreid _ hc⟩
+            · simp only [List.mem_singleton, Prod.mk.injEq] at hc; exact Or.inr hc.1
+          · have := List.mem_filter.1 hs
+            exact Or.inl ⟨Or.inr this.1, by simpa using this.2⟩
+        · rintro (⟨⟨c', hc⟩ | hs, hne⟩ | rfl)
+          · exact Or.inl ⟨c', List.mem_append_left _ hc⟩
+          · exact Or.inr (List.mem_filter.2 ⟨hs, by simpa using hne⟩)
+          · exact Or.inl ⟨c, List.mem_append_right _ (by simp)⟩
+      have hbbn : s'.bbn = setKeys s1.bbn (a.blocks.map (·.bid)) true := by rw [← h]
+      refine ⟨?_, ?_, ?_, ?_⟩
+      · intro x hx
+        rcases (hmem x).1 hx with ⟨hx1, _⟩ | rfl
+        · exact hB.nostat x hx1
+        · exact hns
+      · intro x hx b hb
+        rw [hbbn]; simp only [setKeys]
+        split
+        · rfl
+        · rename_i hnin
+          rcases (hmem x).1 hx with ⟨hx1, _⟩ | rfl
+          · exact hB.found x hx1 b hb
+          · exact absurd (List.mem_map.2 ⟨b, hb, rfl⟩) hnin
+      · intro y hy
+        rw [hbbn] at hy; simp only [setKeys] at hy
+        split at hy
+        · rename_i hin
+          obtain ⟨b, hb, hbe⟩ := List.mem_map.1 hin
+          exact ⟨a, (hmem a).2 (Or.inr rfl), b, hb, hbe⟩
+        · obtain ⟨x, hx, b, hb, hbe⟩ := hB.only y hy
+          by_cases hxi : x.id = a.id
+          · have := hU x hx hxi; subst this
+            exact ⟨x, (hmem x).2 (Or.inr rfl), b, hb, hbe⟩
+          · exact ⟨x, (hmem x).2 (Or.inl ⟨hx, hxi⟩), b, hb, hbe⟩
+      · intro x x' hx hx' hne
+        rcases (hmem x).1 hx with ⟨hx1, hxi⟩ | rfl <;> rcases (hmem x').1 hx' with ⟨hx1', hxi'⟩ | rfl
+        · exact hB.disj x x' hx1 hx1' hne
+        · exact disj_symm (hD x hx1 hxi)
+        · exact hD x' hx1' hxi'
+        · exact absurd rfl hne
+
+private theorem binv_dischargeSwap (s s' : St) (incoming : Asm) (outId : Nat)
+    (h : dischargeSwap s incoming outId = some s') (hI : Inv s) (hB : BInv s) (hns : NoStat incoming)
+    (hU : ∀ x, Holds s x → x.id = incoming.id → x = incoming)
+    (hD : ∀ x, Holds s x → x.id ≠ incoming.id → ∀ b ∈ incoming.blocks, ∀ b' ∈ x.blocks, b.bid ≠ b'.bid) :
+    BInv s' := by
+  have hndc : (s.core.map (·.1.id)).Nodup := (List.nodup_append.1 hI.nodup).1
+  unfold dischargeSwap at h
+  split at h
+  · exact absurd h (by simp)
+  · rename_i out c hf
+    obtain ⟨hm, hid⟩ := find_id hf
+    split at h
+    · exact absurd h (by simp)
+    · rename_i inc' out' ht
+      obtain ⟨e1, e2, _, _⟩ := transfer_ids _ _ _ _ ht
+      obtain ⟨b1, b2⟩ := transfer_no_stat _ _ _ _ ht hns
+      have x1 : inc' = incoming := asm_ext _ _ e1 b1
+      have x2 : out' = out := asm_ext _ _ e2 b2
+      subst x1; subst x2
+      -- nothing was exchanged: the state after `_transferStationaryBlocks` is the state before
+      have hx : xfer s outId out' c inc'.id inc' = s := by
+        have hc : updCore s.core outId out' c = s.core := by
+          unfold updCore
+          conv_rhs => rw [← List.map_id s.core]
+          apply List.map_congr_left
+          intro p hp
+          split
+          · rename_i hpi
+            exact (ids_inj hndc hp hm (by rw [hpi, hid])).symm
+          · rfl
+        have hs : s.sfp.map (fun a => if a.id = inc'.id then inc' else a) = s.sfp := by
+          conv_rhs => rw [← List.map_id s.sfp]
+          apply List.map_congr_left
+          intro a ha
+          split
+          · rename_i hai; exact (hU a (Or.inr ha) hai).symm
+          · rfl
+        unfold xfer; rw [hc, hs]
+      rw [hx] at h
+      cases hrem : removeAssembly s outId true with
+      | none => rw [hrem] at h; exact absurd h (by simp)
+      | some s1 =>
+        rw [hrem] at h
+        simp only [Option.bind_some] at h
+        have hB1 := binv_removeAssembly s s1 outId true hrem hI hB
+        have hsub := removeAssembly_holds_sub s s1 outId true hrem
+        exact binv_putIn s1 s' inc' c h hB1 hns (fun x hx => hU x (hsub x hx)) (fun x hx => hD x (hsub x hx))
+
+/-- extra preconditions of the block-level theorem with purging: charged assemblies carry no stationary block and
+their blocks are new (shared with no assembly the reactor holds) -/
+def BPreP (s : St) : Op → Prop
+  | .dnew a _ => NoStat a ∧ ∀ x, Holds s x → ∀ b ∈ a.blocks, ∀ b' ∈ x.blocks, b.bid ≠ b'.bid
+  | .add a _ => NoStat a ∧ ∀ x, Holds s x → ∀ b ∈ a.blocks, ∀ b' ∈ x.blocks, b.bid ≠ b'.bid
+  | _ => True
+
+theorem binv_step (s : St) (op : Op) (hI : Inv s) (hp : Pre s op) (hbp : BPreP s op) (hB : BInv s) :
+    BInv (step s op) := by
+  have hnotin : ∀ a : Asm, a.id ∉ inventory s → ∀ x, Holds s x → x.id ≠ a.id := by
+    intro a ha x hx e
+    apply ha
+    rcases hx with ⟨c, hc⟩ | hs
+    · exact List.mem_append_left _ (List.mem_map.2 ⟨_, hc, e⟩)
+    · exact List.mem_append_right _ (List.mem_map.2 ⟨_, hs, e⟩)
+  cases op with
+  | swap i j =>
+    simp only [step]
+    cases h : swap s i j with
+    | none => exact hB
+    | some s' => exact binv_swap s s' i j hp h hI hB
+  | cascade l =>
+    simp only [step]
+    cases l with
+    | nil => exact hB
+    | cons a0 rest => exact binv_cascadeLoop a0 rest s (hp a0 rest rfl) hI hB
+  | dnew a o =>
+    simp only [step]
+    cases h : dischargeSwap s a o with
+    | none => exact hB
+    | some s' =>
+      exact binv_dischargeSwap s s' a o h hI hB hbp.1
+        (fun x hx e => absurd e (hnotin a hp x hx)) (fun x hx _ => hbp.2 x hx)
+  | dsfp i o =>
+    simp only [step]
+    split
+    · rename_i a ha
+      cases h : dischargeSwap s a o with
+      | none => exact hB
+      | some s' =>
+        have hmem : Holds s a := Or.inr (List.mem_of_find?_eq_some ha)
+        exact binv_dischargeSwap s s' a o h hI hB (hB.nostat a hmem)
+          (fun x hx e => holds_unique s hI x a hx hmem e)
+          (fun x hx hne => hB.disj a x hmem hx (Ne.symm hne))
+    · exact hB
+  | remove i d =>
+    simp only [step]
+    cases h : removeAssembly s i d with
+    | none => exact hB
+    | some s' => exact binv_removeAssembly s s' i d h hI hB
+  | add a c =>
+    simp only [step]
+    obtain ⟨hfresh, hfree⟩ := hp
+    have hf : s.sfp.filter (fun x => x.id ≠ a.id) = s.sfp := by
+      rw [List.filter_eq_self]
+      intro b hb
+      have : b.id ≠ a.id := hnotin a hfresh b (Or.inr hb)
+      simpa using this
+    have hany : s.core.any (fun p => p.1.id = a.id) = false := by
+      rw [List.any_eq_false]
+      intro p hp hpa
+      exact hnotin a hfresh p.1 (Or.inl ⟨p.2, hp⟩) (by simpa using hpa)
+    have hput : putIn s a.id a c = some (coreAdd s a c).st := by
+      unfold putIn
+      rw [hf]
+      have : (coreAdd s a c).raised = false := by simp [coreAdd, hany, hfree]
+      simp [this]
+    exact binv_putIn s _ a c hput hB hbp.1 (fun x hx e => absurd e (hnotin a hfresh x hx)) (fun x hx _ => hbp.2 x hx)
+
+/-- preconditions (assembly level and block level) hold along the whole history -/
+def BRunOK : St → List Op → Prop
+  | _, [] => True
+  | s, op :: rest => Pre s op ∧ BPreP s op ∧ BRunOK (step s op) rest
+
+/-- **block lookups over arbitrary histories, purging included** (tracking on or off, `removeAssembly` with
+discharge or purge, swaps, cascades, discharge swaps, adds): every block of every assembly in the core or the pool
+is found in `blocksByName`, and `blocksByName` resolves nothing else — in particular no block of a purged assembly.
+Setting: the stationary-block feature is not in play (no held or charged assembly has a stationary block, e.g.
+`stationaryBlockFlags: []`); with stationary blocks the histories without purge are covered by
+`blocks_found_run_partial`; a fresh assembly carrying stationary blocks is the excluded point
+(`discharge-fresh-stationary-block-names`). -/
+theorem blocks_run_with_purge (ops : List Op) (s : St) (hI : Inv s) (hB : BInv s) (hok : BRunOK s ops) :
+    BInv (run s ops) ∧ Inv (run s ops) := by
+  induction ops generalizing s with
+  | nil => exact ⟨hB, hI⟩
+  | cons op rest ih =>
+    exact ih (step s op) (inv_step s op hI hok.1) (binv_step s op hI hok.1 hok.2.1 hB) hok.2.2
+
+theorem binv_init (ks : List (Asm × Cell)) (sf : List Asm) (track : Bool)
+    (hns : ∀ a ∈ ks.map (·.1) ++ sf, NoStat a)
+    (hd : ∀ a ∈ ks.map (·.1) ++ sf, ∀ a' ∈ ks.map (·.1) ++ sf, a.id ≠ a'.id →
+      ∀ b ∈ a.blocks, ∀ b' ∈ a'.blocks, b.bid ≠ b'.bid) : BInv (initSt ks sf track) := by
+  have hh : ∀ a, Holds (initSt ks sf track) a ↔ a ∈ ks.map (·.1) ++ sf := by
+    intro a
+    unfold Holds
+    show ((∃ c, (a, c) ∈ ks) ∨ a ∈ sf) ↔ _
+    rw [List.mem_append, List.mem_map]
+    constructor
+    · rintro (⟨c, hc⟩ | hs)
+      · exact Or.inl ⟨(a, c), hc, rfl⟩
+      · exact Or.inr hs
+    · rintro (⟨p, hp, rfl⟩ | hs)
+      · exact Or.inl ⟨p.2, hp⟩
+      · exact Or.inr hs
+  refine ⟨fun a ha => hns a ((hh a).1 ha), ?_, ?_, fun a a' ha ha' => hd a ((hh a).1 ha) a' ((hh a').1 ha')⟩
+  · intro a ha b hb
+    show (ks.map (·.1) ++ sf).any (fun a => a.blocks.any (fun x => x.bid = b.bid)) = true
+    rw [List.any_eq_true]
+    exact ⟨a, (hh a).1 ha, by rw [List.any_eq_true]; exact ⟨b, hb, by simp⟩⟩
+  · intro x hx
+    change (ks.map (·.1) ++ sf).any (fun a => a.blocks.any (fun y => y.bid = x)) = true at hx
+    rw [List.any_eq_true] at hx
+    obtain ⟨a, ha, hax⟩ := hx
+    rw [List.any_eq_true] at hax
+    obtain ⟨b, hb, hbx⟩ := hax
+    exact ⟨a, (hh a).2 ha, b, hb, by simpa using hbx⟩
+
+/-! non-vacuity: a purge followed by a swap on a three-assembly core without stationary blocks, tracking off -/
+def exSt2 : St :=
+  initSt [(⟨1, [⟨10, false⟩, ⟨11, false⟩]⟩, (0, 0)), (⟨2, [⟨20, false⟩, ⟨21, false⟩]⟩, (1, 0)),
+          (⟨3, [⟨30, false⟩, ⟨31, false⟩]⟩, (2, -1))] [⟨9, [⟨90, false⟩, ⟨91, false⟩]⟩] false
+
+example : BInv (run exSt2 [.remove 3 false, .swap 1 2, .dsfp 9 1]) :=
+  (blocks_run_with_purge _ exSt2 (inv_init _ _ _ (by decide) (by decide))
+    (binv_init _ _ _ (by decide) (by decide))
+    (by simp only [BRunOK, Pre, BPreP]; exact ⟨trivial, trivial, by decide, trivial, trivial, trivial, trivial⟩)).1
 
 end ArmiVerif.Shuffle
